@@ -155,7 +155,12 @@ OCleanup(o, e) ==
                     \cup W(o.ph[c] = "called", "setup_once_before_claims")
                     \cup W(o.ph[c] = "cleanup", "cleanup_once_after_claims_returned")
                     \cup W(o.ph[c] = "setup" /\ ~(o.started[c] \subseteq o.returned[c]), "cleanup_once_after_claims_returned")
-                    \cup W(o.ph[c] = "setup" /\ o.claims[c] \ o.started[c] # {} /\ ~Ending(o, c),
+                    \* (hbstop: a heartbeat of this call was lost or refused. The heartbeat loop's remaining attempts can then
+                    \* die on the torn-down connection before the coordinator sees them - the loop closes and reopens the
+                    \* coordinator's Broker while the session set-up uses the same Broker, cf. F-C15-open-window - so the
+                    \* budget of Metadata.Retry.Max + 1 attempts may be used up although fewer losses were SEEN: the session
+                    \* may be ending.)
+                    \cup W(o.ph[c] = "setup" /\ o.claims[c] \ o.started[c] # {} /\ ~Ending(o, c) /\ ~o.hbstop[c],
                            "exactly_one_claim_unless_ending")]
 
 \* with auto-commit on: the coordinator stored the highest mark of every claimed partition (before or after Cleanup), or
